@@ -5,14 +5,16 @@
    for a backward direction (`position`) -> removal of DELETED_GLYPH 0xFFFF (`substitute_post`,
    no GPOS) -> (glyph id, cluster).
 
-   Reachable part of `compile_flags`: generated fonts have no `feat` table, so
-   `hb_aat_map_builder_t::add_feature` returns for every user feature and `current_features` is
-   empty: `has_feature` is constantly false and every chain gets exactly ONE range whose flags are the
-   chain's default flags.  `chain_flags` below keeps the loop over the chain's feature entries with
-   `has_feature` as a parameter; the pipeline instantiates it with `no_feature`.
+   Chain flags: the user features of the request go through Model/MorxFeat.v (add_feature with the
+   `feat` gate and the mapping table of Gen/MorxFeatMap.v, compile into cluster ranges with their
+   active feature sets); `chain_flags` folds the chain's feature entries in table order over the
+   default flags with `has_feature` of a range's active set.  One range: the flags gate whole
+   subtables (`sub_runs`).  Several ranges (range-restricted features): the subtable's flags are
+   tested per glyph against the range of the glyph's cluster (Morx.v rgate).  A font without `feat`
+   (`shape_morx`): no feature is ever added, one range, default flags.
    No proofs in this file. *)
 From Coq Require Import List NArith ZArith Bool Arith.
-From RB Require Import Base.Result Model.Buffer Model.Font Model.Morx.
+From RB Require Import Base.Result Model.Buffer Model.Font Model.Morx Model.MorxFeat.
 Import ListNotations.
 Local Open Scope N_scope.
 
@@ -23,15 +25,18 @@ Definition dir_backward (d : dir) : bool := match d with RTL | BTT => true | _ =
 (* ---- Chain::compile_flags *)
 Definition no_feature (_ _ : N) : bool := false.
 
+(* is the chain feature entry f switched by the active set?  (type, setting) is active, or — deprecated
+   letter-case small caps entry (3, 3) — lower-case small caps (37, 1) is *)
+Definition entry_active (has_feature : N -> N -> bool) (f : morx_feature) : bool :=
+  has_feature (mf_type f) (mf_setting f)
+  || ((mf_type f =? 3) && (mf_setting f =? 3) && has_feature 37 1).
+
+(* `flags &= feature.disable_flags; flags |= feature.enable_flags;` *)
+Definition flag_step (has_feature : N -> N -> bool) (flags : N) (f : morx_feature) : N :=
+  if entry_active has_feature f then N.lor (N.land flags (mf_disable f)) (mf_enable f) else flags.
+
 Definition chain_flags (has_feature : N -> N -> bool) (c : morx_chain) : N :=
-  fold_left
-    (fun flags f =>
-       if has_feature (mf_type f) (mf_setting f)
-       then N.lor (N.land flags (mf_disable f)) (mf_enable f)
-       else if ((mf_type f =? 3) && (mf_setting f =? 3) && has_feature 37 1)%bool  (* deprecated small caps *)
-       then N.lor (N.land flags (mf_disable f)) (mf_enable f)
-       else flags)
-    (mc_features c) (mc_default_flags c).
+  fold_left (flag_step has_feature) (mc_features c) (mc_default_flags c).
 
 (* ---- coverage bits (high byte of the coverage word) *)
 Definition cov_vertical (s : morx_subtable) : bool := has (ms_coverage s) 0x80000000.
@@ -64,14 +69,16 @@ Fixpoint nlist_eqb (a b : list N) : bool :=
 Definition maybe_reverse (r : bool) (b : zbuf) : result zbuf := if r then reverse b else Ok b.
 
 (* one subtable that passed the gates: reverse?, apply, reverse? *)
-Definition run_subtable (ng : N) (d : dir) (s : morx_subtable) (p : pstate) : result pstate :=
+Definition run_subtable_g (ng : N) (d : dir) (gate : option rgate) (s : morx_subtable) (p : pstate) : result pstate :=
   let r := sub_reverse d s in
   do b0 <- maybe_reverse r (p_buf p);
-  do res <- apply_subtable (ms_kind s) ng b0 (p_ops p);
+  do res <- apply_subtable (ms_kind s) ng gate b0 (p_ops p);
   let '(b1, ops1, amb1) := res in
   do b2 <- maybe_reverse r b1;
   Ok (mkP b2 ops1 (N.lor (p_amb p) amb1)
           ((kind_code (ms_kind s), negb (nlist_eqb (gids (p_buf p)) (gids b2))) :: p_events p)).
+
+Definition run_subtable (ng : N) (d : dir) (s : morx_subtable) (p : pstate) : result pstate := run_subtable_g ng d None s p.
 
 (* the subtables of one chain, in order; a subtable ttf-parser rejects ends the chain *)
 Fixpoint run_subtables (ng : N) (d : dir) (flags : N) (subs : list morx_subtable) (p : pstate) : result pstate :=
@@ -83,10 +90,33 @@ Fixpoint run_subtables (ng : N) (d : dir) (flags : N) (subs : list morx_subtable
     else run_subtables ng d flags t p
   end.
 
-Fixpoint run_chains (ng : N) (d : dir) (chains : list morx_chain) (p : pstate) : result pstate :=
+(* several ranges (range-restricted user features): no test per subtable — the direction gate stays,
+   the feature flags are tested per glyph inside the subtable (rgate) *)
+Fixpoint run_subtables_ranged (ng : N) (d : dir) (rf : rflags) (subs : list morx_subtable) (p : pstate) : result pstate :=
+  match subs with
+  | [] => Ok p
+  | s :: t =>
+    if negb (kind_parses (ms_kind s)) then Ok p
+    else if sub_dir_ok d s then
+      do p1 <- run_subtable_g ng d (Some (mkGate rf (ms_sub_feature_flags s))) s p; run_subtables_ranged ng d rf t p1
+    else run_subtables_ranged ng d rf t p
+  end.
+
+(* Chain::compile_flags for every compiled range *)
+Definition chain_rflags (c : morx_chain) (cr : list crange) : rflags :=
+  map (fun '(cur, a, b) => (chain_flags (has_feature cur) c, a, b)) cr.
+
+(* `apply`: one range => the flags gate whole subtables; several => per glyph *)
+Definition run_chain (ng : N) (d : dir) (cr : list crange) (c : morx_chain) (p : pstate) : result pstate :=
+  match chain_rflags c cr with
+  | [(flags, _, _)] => run_subtables ng d flags (mc_subtables c) p
+  | rf => run_subtables_ranged ng d rf (mc_subtables c) p
+  end.
+
+Fixpoint run_chains (ng : N) (d : dir) (cr : list crange) (chains : list morx_chain) (p : pstate) : result pstate :=
   match chains with
   | [] => Ok p
-  | c :: t => do p1 <- run_subtables ng d (chain_flags no_feature c) (mc_subtables c) p; run_chains ng d t p1
+  | c :: t => do p1 <- run_chain ng d cr c p; run_chains ng d cr t p1
   end.
 
 (* ---- buffer set-up and the whole path *)
@@ -102,7 +132,9 @@ Definition is_deleted (i : info) : bool := gid i =? DELETED_GLYPH.
 
 Record shaped := mkShaped { sh_glyphs : list (N * N); sh_amb : N; sh_events : list event }.
 
-Definition shape_morx (f : font) (d : dir) (lvl : N) (text : list (N * N)) : result shaped :=
+(* feat: the font's feature name table (None = no `feat`); ufs: the user features of the request *)
+Definition shape_morx_feat (f : font) (feat : option feat_table) (ufs : list ufeature)
+           (d : dir) (lvl : N) (text : list (N * N)) : result shaped :=
   (* shape.rs: `if buffer.len > 0 { shape_internal }` — an empty buffer is returned as it is *)
   if (length text =? 0)%nat then Ok (mkShaped [] 0 []) else
   let b0 := init_buf (text_infos f text) lvl 0 in
@@ -111,11 +143,17 @@ Definition shape_morx (f : font) (d : dir) (lvl : N) (text : list (N * N)) : res
   do b1 <- (match d with BTT => reverse b0 | _ => Ok b0 end);
   let d1 := match d with BTT => TTB | x => x end in
   let ops0 := enter_max_ops (length text) in
+  (* hb_aat_layout_substitute: add_feature for every user feature, compile, apply *)
+  do cr <- user_ranges feat ufs;
   do p <- (match f_morx f with
-           | Some m => run_chains (f_num_glyphs f) d1 (mx_chains m) (mkP b1 ops0 0 [])
+           | Some m => run_chains (f_num_glyphs f) d1 cr (mx_chains m) (mkP b1 ops0 0 [])
            | None => Ok (mkP b1 ops0 0 [])
            end);
   (* position(): reverse for a backward direction; then substitute_post removes deleted glyphs *)
   do b2 <- maybe_reverse (dir_backward d1) (p_buf p);
   let '(out, _) := delete_glyphs_inplace lvl is_deleted (arr b2) in
   Ok (mkShaped (map (fun i => (gid i, cluster i)) out) (p_amb p) (rev (p_events p))).
+
+(* a font without `feat`: user features are ignored *)
+Definition shape_morx (f : font) (d : dir) (lvl : N) (text : list (N * N)) : result shaped :=
+  shape_morx_feat f None [] d lvl text.
